@@ -33,6 +33,8 @@ def output_universe(n):
 class MainModel:
     def __init__(self, prog, n, watch, root_syms=None, roots_dup=False):
         self.prog = prog
+        from .actors import init_types
+        init_types(prog)
         self.n = n
         self.watch = watch
         self.names = [tname(i) for i in range(n)]
